@@ -52,6 +52,22 @@ CHECKS = {
          "The finite parts of the property (cycles, numbering, distance, set algebra, iteration order under every interleaving, 8/16-bit conversions, case variants) are enumerated completely on every run, so for them observation is as strong as it gets; the wide integer conversions and string rejection are sampled with catalogues aimed at narrowing casts and one-edit neighbours.",
          "Trusted: the [bool;7] set model and the ASCII-case-insensitive name recogniser in harness/src/props/c19.rs. from_f32/from_f64 are not checked (the property says integers).",
          "DESIGN.md §4 C19"),
+ "C06": ("differential runtime monitor against exact i128 nanosecond arithmetic with an accessor-free range-invariant monitor on every TimeDelta returned (read through its serialized (secs, nanos) pair); 415-entry boundary catalogue + random values, all ordered pairs, catalogue multipliers/divisors",
+         "Every constructor, checked and operator form, accessor, comparison, std conversion and the Display text is compared with exact integer arithmetic on all ordered pairs of 3000 (thorough 10000) values built around the range ends, the i64 count limits of each unit, sign and carry boundaries; every returned TimeDelta passes the MIN<=x<=MAX invariant monitor. 1.3e8 evaluations in quick. Sampling of the pair space, dense at the specification's edges; both overflow-checking and plain release lanes.",
+         "Trusted: i128 oracle; bincode serialization as an accessor-free way to read a TimeDelta (cross-checked against Debug at start).",
+         "DESIGN.md §4 C06"),
+ "C11": ("differential runtime monitor: RFC 2822 writer compared with a reference renderer on every day of years 0..=9999 and parsed back; reader driven by a grammar generator with the denoted value known by construction (obsolete years, zone names, military letters, comments, white-space runs), contradicting weekdays, single-edit mutations and arbitrary text with a lenient reference reader as consistency monitor",
+         "All 3,652,425 days of wall-clock years 0-9999 are rendered (with cycling whole-minute offsets, random times, leap seconds) and compared with the reference text and round-tripped; the reader sees ~5e6 generated valid strings covering every optional branch of the grammar systematically (all 100 two-digit years, all 1000 three-digit years, every case pattern of every zone name, all 2879 numeric zones, nested/escaped comments) plus mutated and arbitrary strings. Sampling of the string space; exhaustive over days for the writer.",
+         "Trusted: reference renderer and lenient reference reader in harness/src/props/c11.rs. Forms the RFC allows but the property does not list (class X) are only value-checked if accepted.",
+         "DESIGN.md §4 C11"),
+ "C20": ("runtime round-trip monitor through serde_json (self-describing) and bincode (positional) for every serializable type, plus exact-integer monitor for the sixteen ts_* helper modules fed through visit_i64/visit_u64/JSON/bincode with per-unit boundary catalogues; panic monitor on every call",
+         "Exhaustive for Weekday/Month; strided walk over all dates; every second of the day; all 2879 whole-minute offsets; range ends with headroom; TimeDelta range ends and raw out-of-range pairs; each ts_* module must write exactly the floor count (i128 oracle), read it back through four routes and reject out-of-range integers by value. ~1.1e7 evaluations quick, 6e8 thorough. Sampling elsewhere.",
+         "Trusted: i128 instant oracle. Leap seconds only on :59 and excluded from timestamp equalities (property). Three known findings (sub-minute offsets; wall date in the headroom) are listed in known_findings.json. DateTime<Local> is exercised with the process zone only.",
+         "DESIGN.md §4 C20"),
+ "C18": ("offline checker over recorded event logs: generated histories of TZ changes, sleeps and conversions run in child processes (3 of 4 in a private mount namespace with a controlled /etc/localtime); each step is logged with SystemTime stamps before/after and every conversion is checked against the answers of the admissible environment states computed from measured stamps and the documented source precedence (R-tz)",
+         "48 (thorough 600) histories of 10-30 steps cover every source kind (absolute path, :path, zone name, :name, POSIX rule, empty, unreadable, non-TZif, garbage, unset), every change kind (env->env, env->unset, unset->env, valid->garbage->valid, back to an earlier value), same-thread conversions within and beyond one second of a change and fresh-thread conversions, under four /etc/localtime configurations; thorough adds stress runs with a rotating TZ. A few hundred to a few thousand conversions per run: real sleeps bound the volume.",
+         "Trusted: R-tz resolution of each TZ value; stamps bracket chrono's own clock reads so load can only weaken a run. Only fixed-offset or far-from-transition instants are queried, so a swap of the UTC/local lookup direction is invisible here (C05's public route sees it). If unshare/mount is unavailable only the host /etc configuration is exercised (reported in evidence).",
+         "DESIGN.md §4 C18"),
 }
 NOT_YET = {}
 
